@@ -49,6 +49,50 @@ var stableClusters = []string{
 	"\U0001D11E",                               // 4-byte
 	"\U0001F44D\U0001F3FD",                     // emoji + modifier
 	"ß",                                   // sharp s (ToUpper one-to-one in Go)
+	"\uFFFD",                              // a literal, well-formed REPLACEMENT CHARACTER (3 bytes)
+	"ǅ", "ⅲ", "ⓐ",                         // Lt / Nl / So code points that ToUpper changes although they are not Ll
+}
+
+// clusters of more than 32 code points (UAX #29 puts no bound on the length of a cluster; fixed
+// buffers and "stream-safe" look-behind caps do): a base with 33–70 marks, a run of 33–50 leading
+// consonants, a ZWJ chain of 17–24 emoji, 33 Prepend characters before a letter
+func (g *gen) giantCluster() string {
+	var sb strings.Builder
+	switch g.r.Intn(4) {
+	case 0:
+		sb.WriteString([]string{"a", "e", "\U0001F469"}[g.r.Intn(3)])
+		for i := 0; i < 33+g.r.Intn(38); i++ {
+			sb.WriteString([]string{"\u0301", "\u0308", "\u0323"}[g.r.Intn(3)])
+		}
+		if g.chance(0.5) {
+			sb.WriteString("\u200d\U0001F467")
+		}
+	case 1:
+		for i := 0; i < 33+g.r.Intn(18); i++ {
+			sb.WriteString("\u1100")
+		}
+		sb.WriteString("\u1161\u11a8")
+	case 2:
+		sb.WriteString("\U0001F468")
+		for i := 0; i < 17+g.r.Intn(8); i++ {
+			sb.WriteString("\u200d\U0001F469")
+		}
+	default:
+		for i := 0; i < 33+g.r.Intn(6); i++ {
+			sb.WriteString("\u0600")
+		}
+		sb.WriteString("x")
+	}
+	return sb.String()
+}
+
+// a run of 34–90 regional indicators (17+ flags, sometimes an odd half at the end)
+func (g *gen) flagRun() string {
+	var sb strings.Builder
+	for i := 0; i < 34+g.r.Intn(57); i++ {
+		sb.WriteRune(rune(0x1F1E6 + g.r.Intn(26)))
+	}
+	return sb.String()
 }
 
 var unstableClusters = []string{
@@ -61,8 +105,8 @@ var wsAll = []string{" ", " ", " ", "\t", " ", "　", " ", "\r\n", "\v"}
 
 // "--" and "||" overlap themselves: "a---" holds one separator and a stray "-", and
 // strings.Count/HasSuffix-style shortcuts disagree with strings.Split there
-var lineSeps = []string{"\n", "\n", "\n", "\r\n", "|", "<br>", "·\n", "--", "||"}
-var paraSeps = []string{"\n\n", "\n\n", "\n\n", "\r\n\r\n", "\n--\n", "<P>\n</P>", "||", "¶"}
+var lineSeps = []string{"\n", "\n", "\n", "\r\n", "|", "<br>", "·\n", "--", "||", "\uFFFD"}
+var paraSeps = []string{"\n\n", "\n\n", "\n\n", "\r\n\r\n", "\n--\n", "<P>\n</P>", "||", "¶", "\n\n> ", " <<\n\n"}
 
 // mode: 0 = stable only, 1 = mostly stable with some unstable, 2 = ascii letters only,
 // 3 = ASCII only with CR LF among the whitespace (the one multi-rune ASCII cluster: any
@@ -90,6 +134,12 @@ func (g *gen) word(mode int, maxLen int) string {
 		n += g.r.Intn(12)
 	}
 	var sb strings.Builder
+	if (mode == 0 || mode == 1) && g.chance(0.012) {
+		if g.chance(0.5) {
+			return g.giantCluster()
+		}
+		return g.flagRun()
+	}
 	if (mode == 0 || mode == 1) && g.chance(0.04) {
 		// a run of one multi-code-point cluster (flags, jamo syllables, ZWJ families …): boundaries
 		// inside such a run depend on context far to the left (regional-indicator parity)
@@ -176,6 +226,13 @@ func (g *gen) longText(mode int, lineSep, paraSep string) string {
 				for i := 0; i < 90; i++ {
 					w += g.cluster(mode)
 				}
+			}
+			if g.chance(0.3) {
+				// one word of 256–420 clusters: hyphenation fast paths for "long words" start here
+				for i := 0; i < 230+g.r.Intn(170); i++ {
+					w += string(rune('a' + g.r.Intn(26)))
+				}
+				n += 300
 			}
 			sb.WriteString(w)
 			n += 30
@@ -269,6 +326,9 @@ func (g *gen) gap() int {
 func (g *gen) width() int {
 	if g.chance(0.08) {
 		return g.r.Intn(5) - 3
+	}
+	if g.chance(0.015) {
+		return 130 + g.r.Intn(500) // wider than any fixed padding buffer
 	}
 	return g.r.Intn(46)
 }
@@ -424,6 +484,26 @@ func (g *gen) groupSplit() {
 			rs[j] = classReps[c][g.r.Intn(2)]
 		}
 		g.emit("split", encRunes(rs))
+	}
+	// clusters beyond any fixed look-behind window, with a little context on both sides
+	for i := 0; i < n/30; i++ {
+		pre := []string{"", "a", "\U0001F1E9", "\u200d", " "}[g.r.Intn(5)]
+		post := []string{"", "b", "\U0001F1EA", "\u0301", "\u200d\U0001F467"}[g.r.Intn(5)]
+		body := g.giantCluster()
+		if g.chance(0.5) {
+			body = g.flagRun()
+		}
+		g.emit("split", encRunes([]rune(pre+body+post)))
+	}
+	// strings longer than 4096 runes (piece-wise analysis must not cut where a cluster continues)
+	for i := 0; i < 2+n/5000; i++ {
+		var sb strings.Builder
+		for sb.Len() < 4080 {
+			sb.WriteString(g.word(2, 9))
+			sb.WriteString(" ")
+		}
+		body := sb.String()[:4080+g.r.Intn(14)]
+		g.emit("split", encRunes([]rune(body+strings.Repeat("b", g.r.Intn(6))+" \u0301x \u200d\U0001F467 \u0903y\n\u0301z "+g.word(2, 5))))
 	}
 	// arbitrary rune values (also ill-formed / out of range)
 	for i := 0; i < n/10; i++ {
@@ -681,7 +761,7 @@ func (g *gen) groupCommit(n int) {
 						st = append(st, fmt.Sprintf("indent,%d,%d,%s", cur, 1+g.r.Intn(2), g.optsArg(o)))
 					}
 				default:
-					st = append(st, fmt.Sprintf("apply,%d,%d,%s", cur, g.r.Intn(7), g.optsArg(o)))
+					st = append(st, fmt.Sprintf("apply,%d,%d,%s", cur, g.r.Intn(8), g.optsArg(o)))
 				}
 				cur = len(st) - 1
 			}
@@ -771,7 +851,7 @@ func (g *gen) groupApply(n int) {
 		mode := g.modeFor()
 		o, ls, ps := g.opts(mode)
 		t := g.text(mode, ls, ps)
-		f := g.r.Intn(7)
+		f := g.r.Intn(8)
 		if g.chance(0.4) {
 			f = 0
 		}
@@ -835,8 +915,16 @@ func (g *gen) groupLayout(n int, which string) {
 
 func (g *gen) pct() float64 {
 	ps := []float64{-1, 0, math.Ldexp(1, -60), .01, .3, 1.0 / 3, .5, .9, .95, .99, 1 - math.Ldexp(1, -53), 1, 2}
-	if g.chance(0.6) {
+	if g.chance(0.45) {
 		return ps[g.r.Intn(len(ps))]
+	}
+	if g.chance(0.5) {
+		// two-decimal percentages and thirds: avail*pct is often a whole number there, which is where
+		// different ways of rounding the column widths part company
+		if g.chance(0.2) {
+			return float64(1+g.r.Intn(2)) / 3
+		}
+		return float64(g.r.Intn(101)) / 100
 	}
 	return g.r.Float64()
 }
@@ -987,7 +1075,7 @@ func (g *gen) groupOptions2(n int) {
 		case 4:
 			op = fmt.Sprintf("indent,%%d,%d,%%s", g.r.Intn(3))
 		case 5:
-			op = fmt.Sprintf("apply,%%d,%d,%%s", g.r.Intn(7))
+			op = fmt.Sprintf("apply,%%d,%d,%%s", g.r.Intn(8))
 		case 6:
 			op = fmt.Sprintf("applypara,%%d,%d,%%s", g.r.Intn(6))
 		case 7:
@@ -1077,7 +1165,7 @@ func (g *gen) groupPool(n int, steps int) {
 				o2, _, _ := g.opts(mode)
 				s = fmt.Sprintf("withopts,%d,%s", src, encOpts(o2))
 			case 13:
-				s = fmt.Sprintf("apply,%d,%d,%s", src, g.r.Intn(7), g.optsArg(o))
+				s = fmt.Sprintf("apply,%d,%d,%s", src, g.r.Intn(8), g.optsArg(o))
 			case 14:
 				s = fmt.Sprintf("linesto,%d,%s", src, encInt(g.pos(3)))
 			case 15:
@@ -1288,6 +1376,22 @@ func (g *gen) groupHist(n int, steps int, withReverse bool) {
 			default:
 				st = append(st, "new,"+encRunes(seeds[g.r.Intn(len(seeds))]))
 			}
+		}
+		if g.chance(0.04) {
+			// a value whose boundaries depend on context far to the left (a long flag run, a giant
+			// cluster), or — rarely — one longer than 4096 runes with a blank + mark near the 4096th
+			switch g.r.Intn(5) {
+			case 0:
+				long := []rune(strings.Repeat("a", 4090+g.r.Intn(8)) + " \u0301xyz \u0308q")
+				st = append(st, "new,"+encRunes(long))
+			case 1, 2:
+				st = append(st, "new,"+encRunes([]rune(g.flagRun())))
+			default:
+				st = append(st, "new,"+encRunes([]rune("ab"+g.giantCluster()+"c")))
+			}
+			st = append(st, fmt.Sprintf("sub,%d,%d,%d", len(st)-1, 1+g.r.Intn(3), 1000000))
+			st = append(st, fmt.Sprintf("len,%d", len(st)-1))
+			st = append(st, fmt.Sprintf("gi,%d", len(st)-2))
 		}
 		for len(st) < steps {
 			src := g.r.Intn(len(st))
